@@ -64,7 +64,9 @@ fn rand_allowed(rng: &mut Rng) -> Vec<u16> {
     }
     let extra = rng.below(3);
     for _ in 0..extra {
-        v.push(*rng.pick(&[0u16, 1, 8, 11, 0xffff, 6, 2560, 2304]));
+        // unknown numbers, byte-swapped known ones, and numbers that alias a known version in
+        // their low bits (a bit mask or a narrowing cast would confuse them)
+        v.push(*rng.pick(&[0u16, 1, 8, 11, 0xffff, 6, 2560, 2304, 21, 23, 25, 26, 261, 263, 265, 266, 0x8009, 0x800a]));
     }
     if rng.chance(1, 10) {
         v.push(rng.next_u64() as u16);
@@ -377,7 +379,7 @@ fn add_families(trace: &mut Trace, rng: &mut Rng, stats: &mut GenStats, big: boo
         *stats.fired.entry(name).or_insert(0) += 1;
         let at = rng.usize_below(trace.events.len() + 1);
         let t = trace.events.get(at).map(|e| match e {
-            Ev::Deliver { t, .. } | Ev::Restart { t } => *t,
+            Ev::Deliver { t, .. } | Ev::Restart { t } | Ev::Reconfigure { t, .. } => *t,
         }).unwrap_or(trace.sim_ns);
         for (k, b) in bufs.into_iter().enumerate() {
             let len = b.len();
@@ -428,6 +430,22 @@ pub fn gen_trace(prop: &str, run_seed: u64) -> (Trace, GenStats) {
             if rng.chance(1, 2) {
                 let big = rng.chance(1, 4);
                 add_families(&mut trace, &mut rng, &mut stats, big);
+            }
+        }
+        "C12" => {
+            // the operator changes the filter of a live parser now and then
+            if !trace.events.is_empty() && rng.chance(1, 2) {
+                let n = rng.urange(1, 3);
+                for _ in 0..n {
+                    let p = rng.usize_below(trace.parsers.len());
+                    let at = rng.usize_below(trace.events.len() + 1);
+                    let t = trace.events.get(at).map(|e| match e {
+                        Ev::Deliver { t, .. } | Ev::Restart { t } | Ev::Reconfigure { t, .. } => *t,
+                    }).unwrap_or(trace.sim_ns);
+                    let allowed = rand_allowed(&mut rng);
+                    trace.events.insert(at, Ev::Reconfigure { t, p, allowed });
+                    *stats.fired.entry("allowed_versions_changed").or_insert(0) += 1;
+                }
             }
         }
         "C15" => {
